@@ -1487,8 +1487,21 @@ func (x *c08) nestx(op C08Op) error {
 	var innerWhat string
 	var payCost proto4.Usage
 	payAcct := -1
-	switch innerOp.Op {
-	case "pay-read", "pay-verify":
+	var otherContract *mcontract
+	for i := range x.C {
+		if c := x.live(i); c.ID != m.ID && !x.nonRevisable(c) {
+			otherContract = c
+		}
+	}
+	pay := innerOp.Op == "pay-read" || innerOp.Op == "pay-verify"
+	switch {
+	case pay && pools && otherContract != nil:
+		pay, innerOp.Op = false, "repl-pool" // pools are not debited directly here
+	case !pay && otherContract == nil && !pools:
+		pay, innerOp.Op = true, "pay-verify"
+	}
+	switch {
+	case pay:
 		if pools {
 			x.cs.Class("nestx-skipped")
 			return nil
@@ -1502,8 +1515,12 @@ func (x *c08) nestx(op C08Op) error {
 		}
 		// make sure the account can pay (an honest, checked funding)
 		if x.Bal[payAcct].Cmp(payCost.RenterCost()) < 0 {
-			if err := x.rpcOn(C08Op{Op: "fund", Dep: []int{payAcct, 4}}, m); err != nil {
+			if err := x.rpcOn(C08Op{Op: "fund", Dep: []int{payAcct, 3}}, m); err != nil {
 				return err
+			}
+			if x.Bal[payAcct].Cmp(payCost.RenterCost()) < 0 {
+				x.cs.Class("nestx-skipped")
+				return nil
 			}
 		}
 		innerWhat = fmt.Sprintf("%s paid from account %d", innerOp.Op, payAcct)
@@ -1522,12 +1539,7 @@ func (x *c08) nestx(op C08Op) error {
 		}
 	default:
 		// fund / replenish of the same key through another contract
-		var other *mcontract
-		for i := range x.C {
-			if c := x.live(i); c.ID != m.ID && !x.nonRevisable(c) {
-				other = c
-			}
-		}
+		other := otherContract
 		if other == nil {
 			x.cs.Class("nestx-skipped")
 			return nil
